@@ -563,6 +563,20 @@ def gen_case(rng, kind=None):
     seed = rng.getrandbits(30)
     obj = O.make(kind, seed)
     ops = []
+    if kind == "scenario" and rng.random() < 0.5:
+        # two vehicles over one list of states (c11_objs.gen_scenario): ask, move the first one alone, ask again
+        obs = obj.obstacles
+        lists = [id(o.prediction.trajectory.state_list) if isinstance(getattr(o, "prediction", None), TrajectoryPrediction)
+                 else None for o in obs]
+        shared = [i for i, x in enumerate(lists) if x is not None and lists.count(x) > 1]
+        if shared:
+            t = rng.randint(0, 7)
+            for op in (["q_occs", t], ["obst_tr"] + g_tr(rng)[1:] + [shared[0]], ["q_occs", t]):
+                ops.append(op)
+                if is_query(op):
+                    outcome_of(query, kind, obj, op)
+                elif mutate(kind, obj, op) is STOP:
+                    return gen_case(rng, kind)
     for _ in range(rng.randint(1, 3)):
         for _ in range(rng.randint(0, 3)):
             ops.append(g_query(rng, kind, obj))
